@@ -20,7 +20,7 @@ func init() {
 	Register(&Prop{
 		ID:    "C07",
 		Title: "Plan space accounting matches the files actually held",
-		Cases: func(t string) int { return tierN(t, 160, 3200) },
+		Cases: func(t string) int { return tierN(t, 160, 25000) },
 		Run:   runC07,
 		Rule: "case = one history of 25-45 steps by 3 owners: buy / upgrade / re-buy after expiry (1-20 GB), plan-paid and pay-once posts (sizes at the remaining-space boundary, the same merkle twice in one block, zero / negative / overflowing size x replication), deletes (own and foreign), honest proofs and deliberately skipped proofs so that reward blocks drop prover-less files, blocks with time steps up to 40 days; " +
 			"oracle after every transaction and every BeginBlock, for every account with a plan: SpaceUsed (StoragePaymentInfo query) and GetClientFreeSpace agree with the sum of size x replication over that owner's live plan-paid files from AllFilesByOwner, 0 <= used <= available; a plan-paid post without a live plan or beyond the remaining space fails; failed posts leave the plan byte-identical; " +
